@@ -36,7 +36,7 @@ type mismatch struct {
 type unitStats struct {
 	Cases, Checks, DirectChecks, ItemsMatched, ExpectedStarts, MissingStarts int
 	ErrorsChecked, NodesChecked, MidCharSkipped, ColUndefinedSkipped         int
-	CasesWithLexError, CasesWithNodes, EmptyASTs, OrphanComments             int
+	CasesWithLexError, CasesWithNodes, EmptyASTs, OrphanComments, NonTrivial int
 }
 
 func runUnits(in *bufio.Scanner, out *bufio.Writer, noRef bool) error {
